@@ -681,14 +681,25 @@ func (rdb *RDB) ForEach(key []byte, f func(value []byte) error, ctx *Context) (e
 
 // IsV2KeySyntaxUsed returns value indicating whether v2 syntax is used for DB keys
 func (rdb *RDB) IsV2KeySyntaxUsed() bool {
+	v2, _ := rdb.v2KeySyntaxUsed()
+	return v2
+}
+
+// v2KeySyntaxUsed is IsV2KeySyntaxUsed which tells a database without the features
+// key (v1 keys) from a database whose features key could not be read
+func (rdb *RDB) v2KeySyntaxUsed() (bool, error) {
 	value, err := rdb.Find([]byte(dnsdata.FeaturesKey), NewContext())
 	if err != nil {
-		return false
+		if errors.Is(err, io.EOF) {
+			// no features key: v1 keys
+			return false, nil
+		}
+		return false, err
 	}
 
 	feature := dnsdata.DecodeFeatures(value)
 
-	return feature&dnsdata.V2KeysFeature > 0
+	return feature&dnsdata.V2KeysFeature > 0, nil
 }
 
 func (rdb *RDB) get(key []byte, ctx *Context) (data []byte, err error) {
